@@ -134,6 +134,11 @@ func (c Int16) LOGSUB(a, b, t Int16) Int16 {
     c.SET(a)
     return c
   }
+  if a.GetFloat64() - b.GetFloat64() < math.Ln2 {
+    // 1 - exp(b-a) cancels for b close to a, see LogSub
+    c.LogSub(a, b, t)
+    return c
+  }
   t.SUB(b, a)
   t.EXP(t)
   t.NEG(t)
